@@ -326,7 +326,7 @@ void reb_read_simulationarchive_from_stream_with_messages(struct reb_simulationa
                     sa->t = NULL;
                     free(sa->offset);
                     sa->offset = NULL;
-                    free(sa);
+                    // Note: sa itself is owned by the caller. Do not free it here.
                     *warnings |= REB_SIMULATION_BINARY_ERROR_SEEK;
                     return;
                 }
@@ -378,15 +378,20 @@ void reb_simulationarchive_init_from_buffer_with_messages(struct reb_simulationa
 }
 
 struct reb_simulationarchive* reb_simulationarchive_create_from_file(const char* filename){
-    struct reb_simulationarchive* sa = malloc(sizeof(struct reb_simulationarchive));
+    struct reb_simulationarchive* sa = calloc(1, sizeof(struct reb_simulationarchive));
     enum reb_simulation_binary_error_codes warnings = REB_SIMULATION_BINARY_WARNING_NONE;
     reb_simulationarchive_create_from_file_with_messages(sa, filename, NULL, &warnings);
     if (warnings & REB_SIMULATION_BINARY_ERROR_NOFILE){
         // Don't output an error if file does not exist, just return NULL.
-        free(sa);
+        reb_simulationarchive_free(sa);
         sa = NULL;
     }else{
         reb_input_process_warnings(NULL, warnings);
+        if (warnings & (REB_SIMULATION_BINARY_ERROR_OLD | REB_SIMULATION_BINARY_ERROR_SEEK)){
+            // No snapshot could be read. Error message has been printed above.
+            reb_simulationarchive_free(sa);
+            sa = NULL;
+        }
     }
     return sa;
 }
